@@ -3,17 +3,14 @@ C05, clears under ANY interleaving: a value is never delivered more often than i
 
 Ghost ownership of blocks (`live` = reachable from the tail, `det tid` = detached by the running clear of
 thread `tid` and not yet read, `read` = handed to a clear callback) is threaded through the step machine
-(`grun`); its first projection is the plain `run`.  The invariant says that the live chain and every running
+(`grun`, defined in `Model/BucketGhost.lean`); its first projection is the plain `run`.  The invariant says that the live chain and every running
 clear's remaining chain are contiguous, disjoint index ranges that end in a `next = none` block, so a block is
 read by at most one clear, at most once.
 -/
 import MetricsVerif.Proofs.BucketAll
+import MetricsVerif.Model.BucketGhost
 
 namespace MetricsVerif.Bucket
-
-inductive Owner
-  | live | det (tid : Nat) | read
-  deriving DecidableEq, Repr
 
 /-- what a running clear still has to read: blocks up to `blk` (inclusive or not) of its detached chain -/
 def claim : PC → Option (Nat × Bool)
@@ -22,22 +19,6 @@ def claim : PC → Option (Nat × Bool)
   | .cRead b => some (b, true)
   | .cNext b => some (b, false)
   | _ => none
-
-def gownT (s : Sys) (t : Thread) (tid : Nat) (own : Nat → Owner) : Nat → Owner :=
-  match t.pc with
-  | .cCas old =>
-    if s.tail = some old then (fun i => if i < s.blocks.length ∧ own i = .live then .det tid else own i) else own
-  | .cRead blk => fun i => if i = blk then .read else own i
-  | _ => own
-
-def gown (s : Sys) (own : Nat → Owner) (tid : Nat) : Nat → Owner :=
-  match s.threads[tid]? with
-  | none => own
-  | some t => gownT s t tid own
-
-def grun : Sys → (Nat → Owner) → List Nat → Sys × (Nat → Owner)
-  | s, own, [] => (s, own)
-  | s, own, tid :: rest => grun (step s tid) (gown s own tid) rest
 
 theorem grun_fst (sched : List Nat) : ∀ s own, (grun s own sched).1 = run s sched := by
   induction sched with
@@ -766,8 +747,6 @@ end MetricsVerif.Bucket
 
 /-! ### every reachable state -/
 namespace MetricsVerif.Bucket
-
-def own0 : Nat → Owner := fun _ => .live
 
 theorem init_ginv (B : Nat) (progs : List (List Call)) : GInv (init B progs) own0 := by
   refine ⟨init_ainv2 B progs, ⟨0, Nat.zero_le _, fun i => ⟨fun _ => Nat.zero_le _, fun _ => rfl⟩, fun _ => rfl,
